@@ -236,7 +236,7 @@ class Printer(object):
         if t.is_signed is not None:
             self.emit(depth, "[is_signed: %s]" % ("true" if t.is_signed else "false"))
         if t.enum_case:
-            self.emit(depth, '[(cpp) enum_case: "%s"]' % t.enum_case)
+            self.emit(depth, '[(cpp) $default enum_case: "%s"]' % t.enum_case)
         for n, v in t.values:
             extra = ""
             if n in t.value_attrs:
